@@ -39,11 +39,9 @@ def handle (line : String) : String :=
               let mirrorOk : Bool :=
                 match ins? with
                 | some i =>
-                  match X86Lift.inClassRR i with
-                  | some (d, s) =>
-                    match X86Lift.liftRR mode i.mnem addr i.len d s with
-                    | .ok m => decide (m.instrs = r.instrs) && decide (m.succs = r.succs) && m.addr == r.addr && m.length == r.length
-                    | _ => false
+                  match X86Lift.liftIns i with
+                  | some (.ok m) => decide (m.instrs = r.instrs) && decide (m.succs = r.succs) && m.addr == r.addr && m.length == r.length
+                  | some _ => false
                   | none => true
                 | none => true
               if mirrorOk then postLine (runBTR r ms.toState 20000) watch windows else "next=mirror-differs"
